@@ -4,16 +4,17 @@ import DEngine.Lemmas.KvCrash
 
 Model: `DEngine.KvCrash` — FS-level File state machine (WAL append, checkpoint = truncate+write of
 `state.data`, truncate+write of `metadata.bin`, WAL clear; sync flush; Drop; `load_from_disk` + `replay_wal`)
-and key-level RocksDB state machine (`write_wbwi` durable, applied index only persisted by
-flush/close/drop), crash = process exit without Drop at any point between file operations; tied to the real
-engines by family `kvcrash` (crash image = copy of the data directory taken at the engine's own crash
-points through a guarded callback; real `new()` on the image; real re-apply of `(last_applied, n]`).
+and key-level RocksDB state machine, crash = process exit without Drop at any point between file
+operations; tied to the real engines by family `kvcrash` (crash image = copy of the data directory taken at
+the engine's own crash points through a guarded callback; real `new()` on the image; real re-apply of
+`(last_applied, n]`).
 
-Decided on the real code: **F15 is real on both engines.** The data always reflects every entry whose
-apply started, the persisted applied index lags behind it (File: until the next checkpoint's
-metadata write; RocksDB: until flush/close), and WAL replay does not advance it.  Raft then re-applies
-`(last_applied, n]` on a state that already contains those entries; with CAS in that range the state
-changes.  What IS true (for every op sequence and every crash point) is proved below.
+History: F15 was confirmed on both engines (data ahead of the reported applied index; Raft re-applied
+`(last_applied, n]`, changing the state with CAS) and repaired in /repo: RocksDB writes the applied index in
+the same batch as the data (238f445), File `replay_wal` advances `last_applied` to the last replayed entry and
+checkpoints the recovered state (18b31d1).  On the code as it is now `recover_consistent` holds for RocksDB at
+every crash point and for the File engine at every crash point except the two *torn* ones inside a
+checkpoint (between the truncating open and the write of `state.data` / `metadata.bin`) — F49, still open.
 -/
 namespace DEngine.C15
 open DEngine.MiniKv DEngine.KvCrash
@@ -23,132 +24,111 @@ open DEngine.Snap (sameKv sameKv_refl sameKv_trans applyAll_congr applyAll_write
 def hist (eng : Eng) (ops : List Op) : List Cmd := (exec ({ eng } : St) ops).cmds
 def imgs (eng : Eng) (ops : List Op) : List Img := images ({ eng } : St) ops
 
-/-- the entries Raft re-applies after recovering image `i`. -/
-def reappliedRange (cmds : List Cmd) (i : Img) : List Cmd := (cmds.take i.n).drop i.dMeta
+/-- the two crash points where a file has been truncated and not yet rewritten. -/
+def torn (i : Img) : Prop := i.name = "persist_data:truncated" ∨ i.name = "persist_metadata:truncated"
 
-/-- **Recovered contents are current** — for every engine, every op sequence (applies, checkpoints, flushes,
-graceful reopen, time-triggered checkpoints) and EVERY crash point except the one between the truncating
-open and the write of `state.data`: the recovered contents are those of applying entries `1..n` exactly
-once (`n` = entries started), the recovered applied index is the persisted one and is `≤ n`. -/
-theorem recovered_contents_current (eng : Eng) (ops : List Op) (i : Img) (hi : i ∈ imgs eng ops)
-    (ht : i.name ≠ "persist_data:truncated") :
-    sameKv (recover eng i).1 (ref (hist eng ops) i.n) ∧ (recover eng i).2 = i.dMeta ∧
-      i.dMeta ≤ i.n ∧ i.n ≤ (hist eng ops).length := by
+/-- **recover_consistent** — for both engines, every op sequence (applies, checkpoints, flushes, graceful
+reopen, time-triggered checkpoints) and EVERY crash point that is not torn: after reopen the contents
+are those of applying entries `1..n` exactly once (`n` = entries whose apply had started) and the reported
+applied index IS `n`: `state = fold apply ∅ (cmds.take last_applied)`. -/
+theorem recover_consistent (eng : Eng) (ops : List Op) (i : Img) (hi : i ∈ imgs eng ops) (ht : ¬ torn i) :
+    sameKv (recover eng i).1 (ref (hist eng ops) (recover eng i).2) ∧ (recover eng i).2 = i.n ∧
+      i.n ≤ (hist eng ops).length := by
   unfold imgs at hi
   unfold hist
   have h := images_ok ops ({ eng } : St) (good_init eng) i hi
   obtain ⟨hn, h⟩ := h
   rcases h with h | ⟨hf, hr⟩
-  · exact absurd h ht
+  · exact absurd (Or.inl h) ht
   · cases eng with
     | file =>
-      have sh := hf rfl
+      obtain ⟨sh, hwm⟩ := hf rfl
       obtain ⟨h1, h2⟩ := recover_file_shape sh
       have hl : (((exec ({ eng := .file } : St) ops).cmds).take i.n).length = i.n := by
         rw [List.length_take]; exact Nat.min_eq_left hn
-      refine ⟨?_, h2, ?_, hn⟩
-      · rw [hl, ref_take _ _ _ (Nat.le_refl _)] at h1; exact h1
-      · have := sh.meta_le; rw [hl] at this; exact this
+      rw [hl, ref_take _ _ _ (Nat.le_refl _)] at h1
+      have hla : (recover .file i).2 = i.n := by
+        rw [h2]
+        split
+        · rename_i he
+          have : i.wal = [] := by simpa using he
+          rcases hwm this with h | h
+          · exact h
+          · exact absurd (Or.inr h) ht
+        · rfl
+      rw [hla]; exact ⟨h1, rfl, hn⟩
     | rocks =>
       obtain ⟨h1, h2⟩ := hr rfl
-      exact ⟨h1, rfl, h2, hn⟩
+      have hla : (recover .rocks i).2 = i.n := h2
+      rw [hla]; exact ⟨h1, rfl, hn⟩
 
-/-- **recover_consistent (`_partial`).** If the persisted index equals the number of started entries
-(crash right after a completed checkpoint / flush / graceful close, before the next apply), the recovered
-state is `fold apply ∅ (cmds.take last_applied)`. -/
-theorem recover_consistent_partial (eng : Eng) (ops : List Op) (i : Img) (hi : i ∈ imgs eng ops)
-    (ht : i.name ≠ "persist_data:truncated") (hcur : i.dMeta = i.n) :
-    sameKv (recover eng i).1 (ref (hist eng ops) (recover eng i).2) := by
-  obtain ⟨h1, h2, _, _⟩ := recovered_contents_current eng ops i hi ht
-  rw [h2, hcur]; exact h1
-
-/-- **exactly-once, exact condition (`_partial`).** After restart, re-applying `(last_applied, n]` yields the
-exactly-once state iff that range is a no-op on the state at `n`. -/
-theorem exactly_once_partial (eng : Eng) (ops : List Op) (i : Img) (hi : i ∈ imgs eng ops)
-    (ht : i.name ≠ "persist_data:truncated")
-    (hidem : sameKv (applyAll (ref (hist eng ops) i.n) (reappliedRange (hist eng ops) i))
-      (ref (hist eng ops) i.n)) :
+/-- **exactly-once**: Raft has nothing to re-apply (`last_applied = n`), so restart + re-application of
+`(last_applied, n]` leaves exactly the state of applying `1..n` once — CAS included. -/
+theorem exactly_once (eng : Eng) (ops : List Op) (i : Img) (hi : i ∈ imgs eng ops) (ht : ¬ torn i) :
     sameKv (reapply (hist eng ops) (recover eng i).1 (recover eng i).2 i.n) (ref (hist eng ops) i.n) := by
-  obtain ⟨h1, h2, _, _⟩ := recovered_contents_current eng ops i hi ht
+  obtain ⟨h1, h2, _⟩ := recover_consistent eng ops i hi ht
   unfold reapply
-  rw [h2]
-  exact sameKv_trans (applyAll_congr h1 _) hidem
+  rw [h2] at h1 ⊢
+  simp only [List.drop_take, Nat.sub_self, List.take_zero]
+  exact h1
 
-/-- no CAS in the re-applied range ⇒ exactly-once. -/
-theorem exactly_once_no_cas (eng : Eng) (ops : List Op) (i : Img) (hi : i ∈ imgs eng ops)
-    (ht : i.name ≠ "persist_data:truncated")
-    (hw : ∀ c ∈ reappliedRange (hist eng ops) i, isWrite c = true) :
-    sameKv (reapply (hist eng ops) (recover eng i).1 (recover eng i).2 i.n) (ref (hist eng ops) i.n) := by
-  obtain ⟨_, _, hle, _⟩ := recovered_contents_current eng ops i hi ht
-  apply exactly_once_partial eng ops i hi ht
-  rw [ref_split (hist eng ops) i.dMeta i.n hle]
-  exact applyAll_writes_idem _ hw _
-
-/-- at most one entry to re-apply ⇒ exactly-once (a single command is idempotent on its own result). -/
-theorem exactly_once_one_entry (eng : Eng) (ops : List Op) (i : Img) (hi : i ∈ imgs eng ops)
-    (ht : i.name ≠ "persist_data:truncated") (h1 : (reappliedRange (hist eng ops) i).length ≤ 1) :
-    sameKv (reapply (hist eng ops) (recover eng i).1 (recover eng i).2 i.n) (ref (hist eng ops) i.n) := by
-  obtain ⟨_, _, hle, _⟩ := recovered_contents_current eng ops i hi ht
-  apply exactly_once_partial eng ops i hi ht
-  rw [ref_split (hist eng ops) i.dMeta i.n hle]
-  unfold reappliedRange at h1 ⊢
-  match hW : (List.take i.n (hist eng ops)).drop i.dMeta, h1 with
-  | [], _ => exact sameKv_refl _
-  | [c], _ =>
-    show sameKv (applyCmd (applyCmd _ c).1 c).1 (applyCmd _ c).1
-    rw [applyCmd_idem]; exact sameKv_refl _
-  | _ :: _ :: _, h => simp at h
-
-/-! ## Full-strength statements and their negations (witnesses replayed on the real engines) -/
+/-! ## Full-strength statement over ALL crash points and its negation (F49) -/
 
 def RecoverConsistentStatement : Prop :=
   ∀ (eng : Eng) (ops : List Op) (j : Nat) (i : Img), (imgs eng ops)[j]? = some i → ∀ k,
     get (recover eng i).1 k = get (ref (hist eng ops) (recover eng i).2) k
 
-def ExactlyOnceStatement : Prop :=
-  ∀ (eng : Eng) (ops : List Op) (j : Nat) (i : Img), (imgs eng ops)[j]? = some i → ∀ k,
-    get (reapply (hist eng ops) (recover eng i).1 (recover eng i).2 i.n) k = get (ref (hist eng ops) i.n) k
+/-- F49 (File): crash between the truncating open and the write of `state.data` inside a checkpoint: the
+data file is empty and the WAL only holds the entries since the previous checkpoint ⇒ everything
+checkpointed earlier is gone (here key 1) while the node reports both entries applied. -/
+def tornOps : List Op := [.apply (.put 1 1 none), .ckpt, .apply (.put 2 2 none), .ckpt]
+
+theorem recover_consistent_false : ¬ RecoverConsistentStatement := by
+  intro h
+  have := h .file tornOps 10 ((imgs .file tornOps)[10]'(by decide)) (List.getElem?_eq_getElem _) 1
+  revert this; decide
+
+theorem torn_checkpoint_loses_data :
+    ∃ (h : 10 < (imgs .file tornOps).length),
+      get (recover .file (imgs .file tornOps)[10]).1 1 = none ∧ (recover .file (imgs .file tornOps)[10]).2 = 2 ∧
+      get (ref (hist .file tornOps) 2) 1 = some 1 := by
+  refine ⟨by decide, by decide⟩
+
+/-- F49, second torn point: `metadata.bin` truncated while the WAL is already empty ⇒ applied index 0 over
+current data. -/
+theorem torn_metadata_resets_index :
+    let ops : List Op := [.apply (.put 1 1 none), .ckpt, .ckpt]
+    ∃ (h : 10 < (imgs .file ops).length),
+      (recover .file (imgs .file ops)[10]).2 = 0 ∧ get (recover .file (imgs .file ops)[10]).1 1 = some 1 := by
+  refine ⟨by decide, by decide⟩
+
+/-! ## The old F15 witnesses, now repaired (regression) -/
 
 /-- checkpoint at index 1 with k=1, then `2: CAS 2→3` (fails), `3: CAS 1→2` ⇒ k=2; crash. -/
 def witnessOps : List Op :=
   [.apply (.put 1 1 none), .ckpt, .apply (.cas 1 (some 2) 3), .apply (.cas 1 (some 1) 2)]
 
-/-- F15 (File): reopen ⇒ contents k=2 (WAL replayed, indexes ignored) but `last_applied = 1`. -/
-theorem recover_consistent_false : ¬ RecoverConsistentStatement := by
-  intro h
-  have := h .file witnessOps 10 ((imgs .file witnessOps)[10]'(by decide)) (List.getElem?_eq_getElem _) 1
-  revert this; decide
-
-/-- F15 (File): Raft re-applies 2..3 on k=2: `CAS 2→3` now succeeds ⇒ k=3 ≠ 2. -/
-theorem exactly_once_false : ¬ ExactlyOnceStatement := by
-  intro h
-  have := h .file witnessOps 10 ((imgs .file witnessOps)[10]'(by decide)) (List.getElem?_eq_getElem _) 1
-  revert this; decide
-
-/-- F15 (RocksDB): same with `flush` instead of the checkpoint. -/
-theorem exactly_once_false_rocks :
-    let ops : List Op := [.apply (.put 1 1 none), .flush, .apply (.cas 1 (some 2) 3), .apply (.cas 1 (some 1) 2)]
-    ∃ (h : 3 < (imgs .rocks ops).length),
-      get (reapply (hist .rocks ops) (recover .rocks (imgs .rocks ops)[3]).1
-        (recover .rocks (imgs .rocks ops)[3]).2 3) 1 = some 3 ∧ get (ref (hist .rocks ops) 3) 1 = some 2 := by
+/-- File: reopen ⇒ k=2 and `last_applied = 3` (was 1): nothing is re-applied, k stays 2 (was 3). -/
+theorem f15_file_fixed :
+    ∃ (h : 10 < (imgs .file witnessOps).length),
+      (recover .file (imgs .file witnessOps)[10]).2 = 3 ∧
+      get (reapply (hist .file witnessOps) (recover .file (imgs .file witnessOps)[10]).1
+        (recover .file (imgs .file witnessOps)[10]).2 3) 1 = some 2 := by
   refine ⟨by decide, by decide⟩
 
-/-- F49 (File): crash between the truncating open and the write of `state.data` inside a checkpoint: the
-data file is empty and the WAL only holds the entries since the previous checkpoint ⇒ everything
-checkpointed earlier is gone (here key 1), although the applied index says 1. -/
-theorem torn_checkpoint_loses_data :
-    let ops : List Op := [.apply (.put 1 1 none), .ckpt, .apply (.put 2 2 none), .ckpt]
-    ∃ (h : 10 < (imgs .file ops).length),
-      get (recover .file (imgs .file ops)[10]).1 1 = none ∧ (recover .file (imgs .file ops)[10]).2 = 1 ∧
-      get (reapply (hist .file ops) (recover .file (imgs .file ops)[10]).1 1 2) 1 = none := by
+/-- RocksDB: same with `flush` instead of the checkpoint. -/
+theorem f15_rocks_fixed :
+    let ops : List Op := [.apply (.put 1 1 none), .flush, .apply (.cas 1 (some 2) 3), .apply (.cas 1 (some 1) 2)]
+    ∃ (h : 3 < (imgs .rocks ops).length),
+      (recover .rocks (imgs .rocks ops)[3]).2 = 3 ∧
+      get (reapply (hist .rocks ops) (recover .rocks (imgs .rocks ops)[3]).1
+        (recover .rocks (imgs .rocks ops)[3]).2 3) 1 = some 2 := by
   refine ⟨by decide, by decide⟩
 
 /-! ## Non-vacuity -/
 
-example : ∃ i ∈ imgs .file witnessOps, i.dMeta = i.n ∧ i.n = 1 := by
-  refine ⟨(imgs .file witnessOps)[6]'(by decide), List.getElem_mem _, by decide, by decide⟩
-
-example : ∀ c ∈ reappliedRange [Cmd.put 1 1 none, .del 1, .put 2 2 none]
-    { name := "", n := 3, dData := [], dMeta := 1, wal := [] }, isWrite c = true := by decide
+example : ∃ i ∈ imgs .file witnessOps, ¬ torn i ∧ i.n = 3 := by
+  refine ⟨(imgs .file witnessOps)[10]'(by decide), List.getElem_mem _, ?_, by decide⟩
+  intro h; rcases h with h | h <;> revert h <;> decide
 
 end DEngine.C15
